@@ -936,6 +936,12 @@ pub struct GenCfg {
     /// State a tree keys by a hash or a slot derived from the calling thread's identity is shared by
     /// some pair of these threads once there are more threads than slots.
     pub wide: usize,
+    /// > 0: "long" scenarios - two threads that each repeat one operation kind (three argument
+    /// variants) up to this many times: per-thread and process-wide counters, "every n-th call" paths
+    /// and slowly growing state get past 2^8 (quick) or 2^16 (thorough, cheap operations) calls
+    pub long: usize,
+    /// estimated microseconds of work allowed per long scenario
+    pub long_budget_us: u64,
     pub focus: String,
     pub max_window: usize,
     pub min_window: usize,
@@ -983,10 +989,10 @@ fn ctxsel(r: &mut Rng, c: &GenCfg) -> usize {
 const FAMS: &[Fam] = &[
     Fam { name: "fields", cost: 60, gen: |r, _| Op::new(*r.pick(&["fq_ops", "fr_ops", "fq2_ops", "fq6_ops", "fq12_ops", "fields_lite"]), &[r.below(8), r.below(8)]) },
     Fam { name: "misc", cost: 40, gen: |r, _| match r.below(4) { 0 => Op::new("misc", &[r.below(8), r.below(100_000)]), 1 => Op::new("field_random", &[r.below(5), r.below(40)]), _ => Op::new("misc2", &[r.below(10), r.below(1000)]) } },
-    Fam { name: "h2f", cost: 30, gen: |r, _| Op::new("h2f", &[r.below(4), r.below(2), r.below(6), r.below(6), r.below(3), r.below(2)]) },
+    Fam { name: "h2f", cost: 30, gen: |r, _| Op::new("h2f", &[r.below(4), r.below(2), r.below(8), r.below(6), r.below(3), r.below(2)]) },
     Fam { name: "arith", cost: 10, gen: |r, _| gop("arith", &[r.below(8), r.below(8)], r) },
     Fam { name: "mul", cost: 300, gen: |r, _| gop(["mul", "amul", "ymul"][r.below(3)], &[r.below(8), rk(r)], r) },
-    Fam { name: "affine", cost: 30, gen: |r, _| if r.chance(1, 2) { gop("affine", &[r.below(8)], r) } else { gop("batchnorm", &[r.below(8), r.below(6)], r) } },
+    Fam { name: "affine", cost: 30, gen: |r, _| if r.chance(1, 2) { gop("affine", &[r.below(8)], r) } else { gop("batchnorm", &[r.below(8), if r.chance(1, 8) { 6 + r.below(5) } else { r.below(6) }], r) } },
     Fam { name: "random", cost: 400, gen: |r, _| gop("random", &[r.below(50)], r) },
     Fam { name: "wnaf_bs", cost: 350, gen: |r, c| gop("wnaf_bs", &[ctxsel(r, c), r.below(6), r.below(if c.focus == "wnaf" { 14 } else { 9 }), rk(r)], r) },
     Fam { name: "wnaf_sb", cost: 350, gen: |r, c| gop("wnaf_sb", &[ctxsel(r, c), rk(r), r.below(6)], r) },
@@ -1005,14 +1011,14 @@ const FAMS: &[Fam] = &[
     Fam { name: "wnaf_view", cost: 300, gen: |r, _| if r.chance(1, 2) { gop("wnaf_view_b", &[r.below(2), rk(r)], r) } else { gop("wnaf_view_s", &[r.below(2), r.below(6)], r) } },
     Fam { name: "wnaf_raw", cost: 600, gen: |r, c| gop("wnaf_raw", &[r.below(6), rk(r), r.range(c.min_window, c.max_window) - 2, r.below(2)], r) },
     Fam { name: "rec", cost: 1, gen: |r, _| if r.chance(1, 2) { gop("rec_scalar", &[r.below(nsc())], r) } else { gop("rec_num", &[r.below(4), (r.next() >> r.below(64)) as usize], r) } },
-    Fam { name: "pre3", cost: 150, gen: |r, _| match r.below(6) { 0 => gop("pre3", &[r.below(6)], r), 1 | 2 => gop("pre3_reuse", &[r.below(6), rk(r)], r), _ => gop("mul3", &[r.below(6), rk(r)], r) } },
-    Fam { name: "pre256", cost: 400, gen: |r, c| if c.with_256 && r.chance(4, 6) { gop("mul256", &[r.below(6), rk(r)], r) } else if r.chance(1, 2) { gop("pre256_reuse", &[r.below(6), rk(r)], r) } else { gop("pre256", &[r.below(6)], r) } },
+    Fam { name: "pre3", cost: 150, gen: |r, _| match r.below(7) { 0 => gop("pre3", &[r.below(6)], r), 1 | 2 => gop("pre3_reuse", &[r.below(6), rk(r)], r), 3 => gop("pre3_pack", &[r.below(6), rk(r), r.below(6)], r), _ => gop("mul3", &[r.below(6), rk(r)], r) } },
+    Fam { name: "pre256", cost: 400, gen: |r, c| if c.with_256 && r.chance(4, 6) { gop("mul256", &[r.below(6), rk(r)], r) } else if r.chance(1, 2) { gop("pre256_reuse", &[r.below(6), rk(r)], r) } else if r.chance(1, 2) { gop("pre256_pack", &[r.below(6), rk(r), r.below(6)], r) } else { gop("pre256", &[r.below(6)], r) } },
     Fam {
         name: "msm",
         cost: 1500,
         gen: |r, c| match r.below(3) {
-            0 => gop("sop", &[r.below(7), r.below(6), r.below(nsc())], r),
-            1 => gop("pip", &[r.below(7), r.below(6), r.below(nsc()), r.below(9)], r),
+            0 => gop("sop", &[if r.chance(1, 8) { 7 + r.below(11) } else { r.below(7) }, r.below(6), r.below(nsc())], r),
+            1 => gop("pip", &[if r.chance(1, 12) { 7 + r.below(11) } else { r.below(7) }, r.below(6), r.below(nsc()), r.below(9)], r),
             _ => {
                 if c.with_256 {
                     gop("sop256", &[r.below(2), r.below(nsc())], r)
@@ -1024,7 +1030,7 @@ const FAMS: &[Fam] = &[
     },
     Fam { name: "encode", cost: 200, gen: |r, _| if r.chance(1, 3) { gop("compress", &[r.below(6)], r) } else { gop("decode", &[r.below(20), r.below(2)], r) } },
     Fam { name: "serdes", cost: 400, gen: |r, _| match r.below(4) { 0 => Op::new("fr_serdes", &[r.below(8), r.below(5)]), 1 => Op::new("fq12_serdes", &[r.below(6), r.below(5)]), _ => gop("serdes", &[r.below(6), r.below(2), r.below(2), r.below(5)], r) } },
-    Fam { name: "h2c", cost: 1200, gen: |r, _| gop(if r.chance(1, 2) { "h2c" } else { "e2c" }, &[r.below(4), r.below(6), r.below(6), r.below(2)], r) },
+    Fam { name: "h2c", cost: 1200, gen: |r, _| gop(if r.chance(1, 2) { "h2c" } else { "e2c" }, &[r.below(4), r.below(8), r.below(6), r.below(2)], r) },
     Fam { name: "insub", cost: 400, gen: |r, _| gop("insub", &[r.below(8)], r) },
     Fam { name: "prepare", cost: 300, gen: |r, _| gop("prepare", &[r.below(6)], r) },
     Fam { name: "miller", cost: 1500, gen: |r, _| Op::new("miller", &[r.below(4), r.below(6), r.below(6), r.below(2)]) },
@@ -1036,7 +1042,7 @@ const FAMS: &[Fam] = &[
             0 => Op::new("pairing", &[r.below(6), r.below(6)]),
             1 => Op::new("pairing_with", &[r.below(2), r.below(6), r.below(6)]),
             2 => Op::new("pairing_product", &[r.below(6), r.below(6), r.below(6), r.below(6)]),
-            _ => Op::new("pairing_multi", &[r.below(4), r.below(6), r.below(6)]),
+            _ => Op::new("pairing_multi", &[r.below(6), r.below(6), r.below(6)]),
         },
     },
     Fam { name: "expected_panic", cost: 100, gen: |r, _| match r.below(3) { 0 => gop("x_pip_topbit", &[r.below(3), r.below(9)], r), 1 => Op::new("x_xmd_long", &[]), _ => Op::new("x_multi_short", &[]) } },
@@ -1106,6 +1112,48 @@ pub fn gen_wide(seed: u64, idx: usize, cfg: &GenCfg) -> SchedPlan {
     }
     let schedule = if r.chance(3, 4) { Schedule::Random(r.next()) } else { Schedule::RoundRobin(1) };
     SchedPlan { focus: cfg.focus.clone(), threads, views_b, views_s, nshared_ctx: cfg.nshared, yield_mask: tok::Y_ALL, schedule }
+}
+
+/// "Long" scenario number `idx`: see `GenCfg::long`.
+pub fn gen_long(seed: u64, idx: usize, cfg: &GenCfg) -> SchedPlan {
+    let mut r = Rng::new(seed);
+    let fams = wide_fams(cfg);
+    let kinds = wide_kinds(cfg);
+    let (kind, fi) = kinds[idx % kinds.len()].clone();
+    let f = fams[fi];
+    let mut variants: Vec<Op> = vec![];
+    for _ in 0..400 {
+        let v = (f.gen)(&mut r, cfg);
+        if v.k == kind && !variants.contains(&v) {
+            variants.push(v);
+            if variants.len() == 3 {
+                break;
+            }
+        }
+    }
+    if variants.is_empty() {
+        variants.push((f.gen)(&mut r, cfg));
+    }
+    let mult = if kind.starts_with("g2_") { 3 } else { 1 };
+    let n = (cfg.long as u64).min(cfg.long_budget_us / (f.cost as u64 * mult).max(1)).max(8) as usize;
+    let mut threads = vec![];
+    for t in 0..2 {
+        let reps = if t == 0 { n } else { n / 3 };
+        let ops: Vec<Op> = (0..reps).map(|_| if r.chance(4, 5) { variants[0].clone() } else { r.pick(&variants).clone() }).collect();
+        threads.push(ThreadPlan { ops, ..Default::default() });
+    }
+    let mut views_b = vec![];
+    let mut views_s = vec![];
+    for gi in 0..2 {
+        for _ in 0..cfg.nviews_b[gi] {
+            views_b.push(((gi + 1) as u8, r.below(6), r.below(12)));
+        }
+        for _ in 0..cfg.nviews_s[gi] {
+            views_s.push(((gi + 1) as u8, rk(&mut r)));
+        }
+    }
+    let schedule = if r.chance(1, 2) { Schedule::Sequential } else { Schedule::Random(r.next()) };
+    SchedPlan { focus: cfg.focus.clone(), threads, views_b, views_s, nshared_ctx: cfg.nshared, yield_mask: 0, schedule }
 }
 
 /// One seeded scenario (swarm style: thread count, op mix, fault kinds, seams, scheduler vary per run)
